@@ -360,7 +360,7 @@ func (c *SpecCtx) index(x, k SV) SV {
 			return SV{T: sel(sel(c.cur.H(mv), x.T), k.T), Sort: e.sortOf(t.Elem()), Ty: t.Elem()}
 		case *types.Slice:
 			h := e.arrHeap(t.Elem())
-			return SV{T: sel(sel(c.cur.H(h), app("s_arr", x.T)), app("+", app("s_off", x.T), k.T)), Sort: e.sortOf(t.Elem()), Ty: t.Elem()}
+			return SV{T: sel(sel(c.cur.H(h), app("s_arr", x.T)), app("sidx", app("s_off", x.T), k.T)), Sort: e.sortOf(t.Elem()), Ty: t.Elem()}
 		case *types.Array:
 			return SV{T: sel(x.T, k.T), Sort: e.sortOf(t.Elem()), Ty: t.Elem()}
 		case *types.Basic:
@@ -462,7 +462,7 @@ func (c *SpecCtx) eqSV(a, b SV) string {
 		e := c.enc()
 		i := e.fresh("i!s")
 		return and(eq(app("-", a.Seq.hi, a.Seq.lo), app("-", b.Seq.hi, b.Seq.lo)),
-			fmt.Sprintf("(forall ((%s Int)) (! (=> (and (<= 0 %s) (< %s (- %s %s))) (= (select %s (+ %s %s)) (select %s (+ %s %s)))) :pattern ((select %s (+ %s %s)))))",
+			fmt.Sprintf("(forall ((%s Int)) (! (=> (and (<= 0 %s) (< %s (- %s %s))) (= (select %s (sidx %s %s)) (select %s (sidx %s %s)))) :pattern ((select %s (sidx %s %s)))))",
 				i, i, i, a.Seq.hi, a.Seq.lo, a.Seq.arr, a.Seq.lo, i, b.Seq.arr, b.Seq.lo, i, a.Seq.arr, a.Seq.lo, i))
 	}
 	if a.Tup != nil && b.Tup != nil && len(a.Tup) == len(b.Tup) {
@@ -555,10 +555,20 @@ func (c *SpecCtx) quant(n *Node) SV {
 			var ts []string
 			c3 := *c2
 			c3.inTrig = true
+			arith := false
 			for _, t := range tr {
-				ts = append(ts, c3.eval(t).T)
+				tt := c3.eval(t).T
+				if strings.Contains(tt, "(+ ") || strings.Contains(tt, "(- ") {
+					arith = true // interpreted arithmetic inside a pattern does not match reliably: leave the choice to the solver
+				}
+				ts = append(ts, tt)
 			}
-			pats = append(pats, ":pattern ("+strings.Join(ts, " ")+")")
+			if !arith {
+				pats = append(pats, ":pattern ("+strings.Join(ts, " ")+")")
+			}
+		}
+		if len(pats) == 0 {
+			return boolSV(fmt.Sprintf("(%s (%s) %s)", q, strings.Join(binders, " "), body.T))
 		}
 		e.uniq++
 		return boolSV(fmt.Sprintf("(%s (%s) (! %s %s :qid spec_%s_%d))", q, strings.Join(binders, " "), body.T, strings.Join(pats, " "), sanitize(n.Vars[0].Name), e.uniq))
@@ -732,6 +742,31 @@ func (c *SpecCtx) call(n *Node) SV {
 			return SV{T: c.cur.H(md), Sort: e.heapSort[md]}
 		}
 		return SV{T: c.cur.H(mv), Sort: e.heapSort[mv]}
+	case "sdkValidate":
+		x := c.eval(n.Args[0])
+		e.declRaw("sdkValidate", "(declare-fun sdkValidate (Int) Iface)\n(assert (forall ((r Int)) (! (iface_ok (sdkValidate r)) :pattern ((sdkValidate r)))))")
+		return SV{T: app("sdkValidate", x.T), Sort: "Iface"}
+	case "unchangedAll":
+		// every object that existed at entry has its entry state, in every heap (the guarding mutexes excepted)
+		entry := c.f.entry
+		if entry == nil {
+			entry = c.old
+		}
+		var cs []string
+		for _, h := range e.heapOrder {
+			skip := false
+			for _, gs := range e.specs.guards {
+				if strings.HasSuffix(h, "_"+gs.Struct+"$"+gs.Mutex) {
+					skip = true
+				}
+			}
+			if skip || c.cur.H(h) == entry.H(h) {
+				continue
+			}
+			r := e.fresh("r!ua")
+			cs = append(cs, fmt.Sprintf("(forall ((%s Int)) (! (=> (< %s %s) (= (select %s %s) (select %s %s))) :pattern ((select %s %s)) :qid unchangedAll))", r, r, entry.alloc, c.cur.H(h), r, entry.H(h), r, c.cur.H(h), r))
+		}
+		return boolSV(and(cs...))
 	case "mapsUnchanged":
 		// every map of the given type that existed at function entry has its entry contents
 		t := c.resolveType(n.Args[0].Name)
